@@ -35,7 +35,8 @@ static double x[MAXN], w[MAXN];
 static int n;
 
 static char g_sig[200];
-#define FAIL(rule, ...) do { snprintf(g_sig, sizeof g_sig, "c17:%s", rule); vx_violation(g_sig, __VA_ARGS__); } while (0)
+static bool g_reuse; /* second pass: every summary has had an earlier life and was reset */
+#define FAIL(rule, ...) do { snprintf(g_sig, sizeof g_sig, "c17:%s%s", g_reuse ? "after-reset:" : "", rule); vx_violation(g_sig, __VA_ARGS__); } while (0)
 
 struct ref {
     uint64_t count;
@@ -206,6 +207,13 @@ static bool check_summary(const struct cmb_datasummary *s, const struct ref *r, 
 static void summarise(struct cmb_datasummary *s, const double *xs, int cnt)
 {
     cmb_datasummary_initialize(s);
+    if (g_reuse) {
+        /* an earlier life with other data, then reset: must be as good as new */
+        cmb_datasummary_add(s, 3.5);
+        cmb_datasummary_add(s, -2.0);
+        cmb_datasummary_add(s, 1e3);
+        cmb_datasummary_reset(s);
+    }
     for (int i = 0; i < cnt; i++) {
         cmb_datasummary_add(s, xs[i]);
     }
@@ -214,6 +222,12 @@ static void summarise(struct cmb_datasummary *s, const double *xs, int cnt)
 static void wsummarise(struct cmb_wtdsummary *s, const double *xs, const double *ws, int cnt, double c)
 {
     cmb_wtdsummary_initialize(s);
+    if (g_reuse) {
+        cmb_wtdsummary_add(s, 3.5, 2.0);
+        cmb_wtdsummary_add(s, -2.0, 0.5);
+        cmb_wtdsummary_add(s, 1e3, 1.0);
+        cmb_wtdsummary_reset(s);
+    }
     for (int i = 0; i < cnt; i++) {
         cmb_wtdsummary_add(s, xs[i], ws[i] * c);
     }
@@ -261,7 +275,7 @@ static void run_plain(void)
                 struct cmb_datasummary a, b, t;
                 summarise(&a, x, k);
                 summarise(&b, x + k, n - k);
-                cmb_datasummary_initialize(&t);
+                summarise(&t, x, 0); /* a target that may have had an earlier life */
                 struct cmb_datasummary *first = order ? &b : &a, *second = order ? &a : &b;
                 struct cmb_datasummary *tgt = alias == 0 ? &t : alias == 1 ? first : second;
                 cmb_datasummary_merge(tgt, first, second);
@@ -384,7 +398,7 @@ static void run_weighted(void)
                 struct cmb_wtdsummary a, b, t;
                 wsummarise(&a, x, w, k, 1.0);
                 wsummarise(&b, x + k, w + k, n - k, 1.0);
-                cmb_wtdsummary_initialize(&t);
+                wsummarise(&t, x, w, 0, 1.0); /* a target that may have had an earlier life */
                 struct cmb_wtdsummary *first = order ? &b : &a, *second = order ? &a : &b;
                 struct cmb_wtdsummary *tgt = alias == 0 ? &t : alias == 1 ? first : second;
                 const bool e1 = cmb_wtdsummary_count(first) == 0, e2 = cmb_wtdsummary_count(second) == 0;
@@ -444,9 +458,19 @@ static void run_one(void)
     }
     if (weighted) {
         run_weighted();
+        if (vx_violations_this_exec() == 0) {
+            g_reuse = true;
+            run_weighted();
+            g_reuse = false;
+        }
     }
     else {
         run_plain();
+        if (vx_violations_this_exec() == 0) {
+            g_reuse = true;
+            run_plain();
+            g_reuse = false;
+        }
     }
 }
 
